@@ -120,6 +120,12 @@ def check(ctx, fname, sname, sp, f, tags, rng):
                     got = fc(sp.element(ya))
                     if not np.isclose(got, want, rtol=1e-12, atol=1e-12):
                         ctx.violation(comp, cfg, 'conjugate-inconsistent', symptom='0-log-0-convention:conjugate at y=1 where the prior is 0', got=float(got), ref=float(want))
+                    # ... and beyond it: the conjugate of x -> x on x >= 0 is +inf for slopes larger than one
+                    for over in (1.5, 1.0 + 1e-9):
+                        goto = fc(sp.element(np.where(z, over, 0.3)))
+                        if np.isfinite(goto):
+                            ctx.violation(comp, cfg, 'conjugate-inconsistent', symptom='0-log-0-convention:conjugate finite at y>1 where the prior is 0', got=float(goto), y=over)
+                            break
                     xa = np.where(z, 0.0, 1.7)
                     wantf = sp.element(np.where(z, 0.0, xa - g + g * np.log(np.where(z, 1.0, g) / np.where(z, 1.0, xa)))).inner(sp.one())
                     gotf = f(sp.element(xa))
